@@ -98,6 +98,27 @@ def undecodable_reply(rng, ident):
     return scn.line("scn", ident, s, extra="nt=1 family=undecodable-reply expect=1:eof+other+app")
 
 
+def stale_reply_new_call(rng, ident, hook, nth, how):
+    """call A returns (cancel / deadline) while its reply is parked between look-up and delivery; call B starts before the
+    rest of A's reply is processed: B must be answered by ITS reply, never by A's"""
+    s = ["park/%s/%d" % (hook, nth), scn.call(1, timeout=12 if how == "deadline" else 0),
+         "feednowait/" + scn.feed_resp(0, 1, pad=5 + rng.below(20))[5:], "waitpark/" + hook]
+    s.append(scn.cancel(1) if how == "cancel" else "await/c1")
+    k = 1 + rng.below(3)
+    for i in range(k):
+        s.append(scn.call(2 + i))
+    s += ["sleep/2", "release/" + hook, "settle", "sleep/2"]
+    order = list(range(k))
+    if rng.chance(1, 2):
+        order.reverse()
+    for i in order:
+        s.append(scn.feed_resp(1 + i, 2 + i, pad=rng.below(10)))
+        s.append("await/c%d" % (2 + i))
+    s.append("settle")
+    exp = ["1:ctx+ok"] + ["%d:ok" % (2 + i) for i in range(k)]
+    return scn.line("scn", ident, s, extra="nt=1 family=stale-reply-new-call expect=%s" % ",".join(exp))
+
+
 def explore(ctx):
     rng, tier = ctx["rng"], ctx["tier"]
     if ctx.get("replay"):
@@ -116,6 +137,11 @@ def explore(ctx):
                         if n_out + n_in == 0:
                             continue
                         lines.append(scenario(rng, "m%d" % n, n_out, n_in, order_out, order_in, tier)); n += 1
+        for _ in range({"quick": 1, "thorough": 8, "search": 2}[tier]):
+            for how in ("cancel", "deadline"):
+                for hook, nths in (("UnwrapMakeArg", [1]), ("UnwrapError", [1]), ("FrameRead", list(range(1, 8)))):
+                    for nth in nths:
+                        lines.append(stale_reply_new_call(rng, "r%d" % n, hook, nth, how)); n += 1
         for _ in range(2):
             lines.append(oversize_reply(rng, "o%d" % n)); n += 1
         for _ in range(6):
